@@ -242,6 +242,42 @@ def s6(ctx, rep):
     rep.put(ok, "S6", "agreement", "SimulatorBackend._advance_by_outside_time charges the real time since the last exit mark", a, None, "")
 
 
+def s2b(ctx, rep):
+    """found thin by the generic mutation audit"""
+    from .common import require_guard, eval3
+    P = ctx.P
+    c = P.cls("SimulatorState")
+    m = c.methods["remove_events"]
+    comps = [x for x in walk_shallow(m.node) if isinstance(x, ast.ListComp) and x.generators and x.generators[0].ifs]
+    ok = len(comps) == 1
+    if ok:
+        cond = comps[0].generators[0].ifs[0]
+        # the identifying comparison inside the filter
+        cmpn = [y for y in ast.walk(cond) if isinstance(y, ast.Compare) and len(y.ops) == 1 and isinstance(y.ops[0], (ast.Eq, ast.NotEq))
+                and "trial_id" in U(y)]
+        ok = len(cmpn) == 1
+        if ok:
+            k = frozenset({U(cmpn[0].left), U(cmpn[0].comparators[0])})
+            ok = eval3(cond, {k: True}) is False and eval3(cond, {k: False}) is True
+    rep.put(ok, "S2", "keepfilter_polarity", "SimulatorState.remove_events keeps exactly the events of the other trials", m, comps[0] if comps else None, "",
+            "the filter keeps the events of the trial to be removed and drops everybody else's: a stopped trial goes on reporting, running ones fall silent")
+    g = P.method("_BlackboxSimulatorBackend", "_run_job_and_collect_results")
+    cg = cfg_of(g)
+    loops = [n.id for n in cg.nodes if n.kind == "for" and isinstance(n.ast.iter, ast.Name)
+             and any(isinstance(y, ast.Call) and fn_name(y) == "append" for s_ in n.ast.body for y in ast.walk(s_))]
+    require_guard(ctx, rep, "S5", g, "_BlackboxSimulatorBackend._run_job_and_collect_results: levels are skipped | the trial was paused and checkpointing is supported", loops,
+                  [("paused level is not None", lambda a: a[0] == "is" and a[2] == "None" and a[3] is False),
+                   ("self._support_checkpointing", lambda a: a[0] == "truth" and a[1] == "self._support_checkpointing" and a[2] is True)],
+                  "a script without checkpointing restarts from scratch after a resume, but its early levels are dropped (or a checkpointed one repeats them)")
+    h = P.func("syne_tune.blackbox_repository.utils.metrics_for_configuration")
+    ch = cfg_of(h)
+    app = [n.id for n in ch.nodes for x in ch.node_walk(n.id) if isinstance(x, ast.Call) and fn_name(x) == "append"]
+    require_guard(ctx, rep, "S4", h, "metrics_for_configuration: a level is reported | its fidelity value lies in the requested range (both ends inclusive)", app,
+                  [("range[0] <= value", lambda a: a[0] == "le" and a[1].endswith("[0]")),
+                   ("value <= range[1]", lambda a: a[0] == "le" and a[2].endswith("[1]"))],
+                  "levels outside the requested fidelity range are replayed (or those inside are dropped)")
+
+
 def _ancestors(x):
     p_ = getattr(x, "_parent", None)
     while p_ is not None:
@@ -291,4 +327,5 @@ def run(ctx, rep, tier="quick"):
         i.clause = "S5"
         rep.items.append(i)
     s6(ctx, rep)
+    s2b(ctx, rep)
     s7(ctx, rep)
